@@ -503,6 +503,9 @@ func worker(t *testing.T, c core.Cfg) {
 		k := r.Range(2, 6)
 		if c.Tier == "thorough" && r.Chance(0.2) {
 			k = r.Range(6, 12)
+			if r.Chance(0.25) {
+				k = r.Range(16, 32)
+			}
 		}
 		var pool []*Source
 		if r.Chance(0.35) {
